@@ -169,7 +169,9 @@ Definition raccept_app (s : rst) (t : nat) (e : rev) : option rst :=
   | RAFlushWait k last fl, RLdShut v => if Bool.eqb v (r_shut s) then Some s else None
   | RAFlushWait k last fl, RLdPending v => if Nat.eqb v (r_pending s) then Some s else None
   | RAFlushWait k last fl, RLdNotified v => if Nat.eqb v (r_notified s) then Some (rset_ap s t (RAFlushWait k (Some v) fl)) else None
-  | RAFlushWait k last None, RExpFlush r => Some (rset_ap s t (RAFlushWait k None (Some r)))
+  (* the exporter is flushed only after the caller has read its ticket as published (a caller woken by Shutdown returns false) *)
+  | RAFlushWait k (Some v) None, RExpFlush r =>
+      if Nat.leb k v then Some (rset_ap s t (RAFlushWait k None (Some r))) else None
   | RAFlushWait k last fl, RRetFlush r =>
       let expected := match fl, last with
                       | Some true, Some v => Nat.leb k v        (* result && notified.load() >= ticket *)
